@@ -191,7 +191,8 @@ inline bool World::exec_op(Proc &p, Step &st, std::string &out, long *aout, long
         if ((size_t) o->off < i->data.size()) { out = i->data.substr(o->off, n); o->off += out.size(); }
         i->atime = k.clock; ret = out.size(); st.data = &out; return false;
       }
-      if (o->kind == K_PIPE_R) {
+      if (o->kind == K_SOCK && !o->pipe) return FAIL(ENOTCONN);
+      if (o->kind == K_PIPE_R || o->kind == K_SOCK) {
         Pipe *pp = o->pipe.get();
         if (pp->buf.empty()) { if (pp->writers <= 0) { ret = 0; return false; } return FAIL(EAGAIN); }
         out = pp->buf.substr(0, n); pp->buf.erase(0, out.size()); ret = out.size(); st.data = &out; return false;
@@ -211,8 +212,9 @@ inline bool World::exec_op(Proc &p, Step &st, std::string &out, long *aout, long
         if (i->data.size() < (size_t) o->off + n) i->data.resize(o->off + n, '\0');
         memcpy(&i->data[o->off], r.data.data(), n); o->off += n; i->mtime = k.clock; ret = n; return false;
       }
-      if (o->kind == K_PIPE_W) {
-        Pipe *pp = o->pipe.get();
+      if (o->kind == K_SOCK && !o->pipe2) return FAIL(ENOTCONN);
+      if (o->kind == K_PIPE_W || o->kind == K_SOCK) {
+        Pipe *pp = o->kind == K_SOCK ? o->pipe2.get() : o->pipe.get();
         if (pp->readers <= 0) {
           SigDisp &d = p.sig[SIGPIPE];
           if (d.kind == 1 || (p.blocked & (1ULL << SIGPIPE))) return FAIL(EPIPE);
@@ -465,9 +467,14 @@ inline bool World::exec_op(Proc &p, Step &st, std::string &out, long *aout, long
       if (r.a[0]) { i->atime = r.a[1]; i->mtime = r.a[2]; } else { i->atime = i->mtime = k.clock; }
       return false;
     }
-    case VK_SOCKET: { int o = k.new_ofd(); k.ofds[o]->kind = K_SOCK; ret = install_fd(p, o); return false; }
+    case VK_SOCKET: { int o = k.new_ofd(); k.ofds[o]->kind = K_SOCK; k.ofds[o]->flags = O_RDWR; ret = install_fd(p, o); return false; }
     case VK_CONNECT: { int e = scn->connect(*this, p, r.a[0]); if (e < 0) return FAIL(-e); return false; }
-    case VK_GETPEERNAME: { return false; }
+    case VK_RESQUERY: {
+      st.path = r.data.c_str(); std::string ans; int he = scn->dns(*this, p, st.path, (int) r.a[1], &ans);
+      if (he) { aout[0] = he; ret = -1; err = he == 2 ? EAGAIN : ENOENT; return false; }
+      out = ans.substr(0, std::min<size_t>(ans.size(), (size_t) r.a[2])); ret = ans.size(); return false;
+    }
+    case VK_GETPEERNAME: { Ofd *o = O(p, r.a[0]); if (!o) return FAIL(EBADF); if (o->kind == K_SOCK && !o->pipe) return FAIL(ENOTCONN); return false; }
     case VK_IOCTL: { Ofd *o = O(p, r.a[0]); if (!o) return FAIL(EBADF); return false; }
     case VK_KILL: {
       Proc *t = P(r.a[0]); if (!t || t->st != P_PENDING) return FAIL(ESRCH);
